@@ -108,6 +108,9 @@ def run(repo, tier):
     out += annotation_rules(repo)
     out += product_rules(repo, "product.apply_pairwise")
     out += product_rules(repo, "product.apply_product")
+    from .c03 import args_as_given_rule
+    if repo.has_func("ablate.ablate"):
+        out += args_as_given_rule(repo.func("ablate.ablate"))
     return out
 
 
